@@ -1155,8 +1155,20 @@ func (w *_structAssembler) AssembleKey() datamodel.NodeAssembler {
 		cfg:        w.cfg,
 		schemaType: schemaTypeString,
 		val:        reflect.New(goTypeString).Elem(),
+		finish:     func() error { return w.checkRepeatedField(w.curKey.val.String()) },
 	}
 	return &w.curKey
+}
+
+// checkRepeatedField runs when a key has been assigned: a field that was already assembled is refused.
+func (w *_structAssembler) checkRepeatedField(name string) error {
+	if w.schemaType.Field(name) == nil {
+		return nil // not a field at all: AssembleValue reports that
+	}
+	if ftyp, ok := w.val.Type().FieldByName(fieldNameFromSchema(name)); ok && len(ftyp.Index) == 1 && w.doneFields[ftyp.Index[0]] {
+		return datamodel.ErrRepeatedMapKey{Key: basicnode.NewString(name)}
+	}
+	return nil
 }
 
 func (w *_structAssembler) AssembleValue() datamodel.NodeAssembler {
